@@ -564,7 +564,11 @@ fn c02_alg() -> (bool, String) {
             (None, Ok(_)) => return (true, format!("{ctx}: no entry is supported, but the registration succeeded ({stored} credential(s) stored)")),
             (None, Err(_)) => if stored != 0 { return (true, format!("{ctx}: failed but stored a credential")); },
             (Some(_), Err(e)) => return (true, format!("{ctx}: a supported entry is present, registration failed with {e:?}")),
-            (Some(_), Ok(_)) => if stored != 1 { return (true, format!("{ctx}: {stored} credentials stored")); },
+            (Some(_), Ok(resp)) => {
+                if stored != 1 { return (true, format!("{ctx}: {stored} credentials stored")); }
+                // the attestation the authenticator returns is the "none" attestation: format identifier "none"
+                if resp.fmt != "none" { return (true, format!("{ctx}: the attestation format identifier of the response is {:?}, not \"none\"", resp.fmt)); }
+            }
         }
     }
     (false, format!("algorithm choice agrees with the statement over {n} preference lists"))
